@@ -1,18 +1,30 @@
 #!/usr/bin/env python
-"""C12: the peer sends N bytes and closes while the server is writing to it.
-The failing write makes the server drop the connection at once, although most
-of the N bytes are still waiting, readable, in the server's receive queue:
-they are never reported as read events (loss)."""
+"""
+C12 demo 2: a connection that the server upgrades with starttls and whose
+TLS handshake fails (peer sends something that is no ClientHello, or goes
+away) never gets a disconnect: observers have seen connect(sock) and then
+nothing more for ever, and the server keeps the socket in its private
+__starttls set.
+"""
+import os
 import socket
+import ssl
 import sys
+import threading
 import time
 
-from circuits import Component, handler
-from circuits.core.pollers import EPoll, Poll, Select
-from circuits.net.events import write
+import circuits
+
+from circuits import Component, Manager
+from circuits.core import pollers
+from circuits.net.events import starttls, write
 from circuits.net.sockets import TCPServer
 
-N = 40000
+
+# the self-signed certificate of the test-suite, if this is a source checkout
+CERT = os.path.join(os.path.dirname(os.path.dirname(os.path.abspath(circuits.__file__))), 'tests', 'net', 'cert.pem')
+if not os.path.exists(CERT):
+    CERT = None
 
 
 class Observer(Component):
@@ -21,67 +33,88 @@ class Observer(Component):
     def init(self):
         self.log = []
 
-    @handler('connect')
-    def _on_connect(self, sock, *args):
-        self.log.append(('connect', sock))
+    def connect(self, sock, *peer):
+        self.log.append(('connect', id(sock)))
 
-    @handler('read')
-    def _on_read(self, sock, data):
-        self.log.append(('read', sock, data))
+    def read(self, sock, data):
+        self.log.append(('read', id(sock), data))
+        if data == b'STARTTLS\n':
+            self.fire(write(sock, b'OK\n'))
+            self.fire(starttls(sock))
 
-    @handler('disconnect')
-    def _on_disconnect(self, sock):
-        self.log.append(('disconnect', sock))
+    def disconnect(self, sock):
+        self.log.append(('disconnect', id(sock)))
 
-    @handler('error')
-    def _on_error(self, *args):
-        self.log.append(('error', args))
+    def error(self, sock, err):
+        self.log.append(('error', id(sock), type(err).__name__))
 
 
-def run(poller_cls, server_writes):
-    m = Observer()
+def peer(addr, result, good=False):
+    c = socket.create_connection(addr)
+    c.settimeout(5)
+    c.sendall(b'STARTTLS\n')
+    result.append(c.recv(3))
+    if good:
+        ctx = ssl.create_default_context()
+        ctx.check_hostname = False
+        ctx.verify_mode = ssl.CERT_NONE
+        t = ctx.wrap_socket(c)
+        t.sendall(b'hello over tls')
+        time.sleep(0.2)
+        t.close()
+        result.append('tls ok, closed')
+        return
+    c.sendall(b'this is not a TLS client hello\r\n')  # handshake must fail
+    try:
+        result.append(c.recv(100))  # b'' or a reset: the server has dropped the connection
+    except OSError as e:
+        result.append(type(e).__name__)
+    c.close()
+
+
+def scenario(poller_cls, good=False):
+    m = Manager()
     poller_cls().register(m)
-    server = TCPServer(('127.0.0.1', 0)).register(m)
+    s = TCPServer(('127.0.0.1', 0), certfile=CERT).register(m)
+    o = Observer().register(m)
     m._running = True
     for _ in range(5):
         m.tick(0)
 
-    peer = socket.create_connection((server.host, server.port))
-    for _ in range(5):
+    result = []
+    th = threading.Thread(target=peer, args=(s._sock.getsockname(), result, good), daemon=True)
+    th.start()
+    deadline = time.time() + 3
+    while time.time() < deadline and (th.is_alive() or time.time() < deadline - 2.5):
         m.tick(0.01)
-    sock = server._clients[0]
+    th.join(2)
+    for _ in range(50):
+        m.tick(0)
 
-    payload = bytes(i % 251 for i in range(N))
-    peer.sendall(payload)
-    peer.close()  # orderly close (FIN): everything sent before it is deliverable
-    time.sleep(0.05)
-
-    if server_writes:
-        m.fire(write(sock, b'x' * 200000), 'server')
-        m.fire(write(sock, b'y' * 200000), 'server')
-
-    for _ in range(150):
-        m.tick(0.01)
-        time.sleep(0.001)
-
-    got = b''.join(e[2] for e in m.log if e[0] == 'read')
-    others = [e[0] for e in m.log if e[0] != 'read']
-    what = 'server writing' if server_writes else 'server idle   '
-    print(f'  {poller_cls.__name__:6} {what}: {len(got)} of {N} received bytes reported as read events; other events {others}')
-    if server._sock is not None:
-        server._sock.close()
-    return got == payload and others.count('disconnect') == 1
+    kinds = [e[0] for e in o.log]
+    retained = len(getattr(s, '_Server__starttls', ()))
+    print(
+        '%-6s %s: peer saw %r; observer saw %s; sockets left in server.__starttls: %d; in _clients: %d'
+        % (poller_cls.__name__, 'handshake succeeds' if good else 'handshake fails   ', result, [e[0] if e[0] != 'error' else e[::2] for e in o.log], retained, len(s._clients))
+    )
+    s._sock.close()
+    return kinds.count('connect') == 1 and kinds.count('disconnect') == 1 and retained == 0
 
 
 def main():
-    ok = True
-    for cls in (Select, Poll, EPoll):
-        ok &= run(cls, False)
-        ok &= run(cls, True)
-    if not ok:
-        print('VIOLATION: bytes the server had received before the disconnect were never reported (lost)')
+    bad = False
+    for name in ('Select', 'Poll', 'EPoll'):
+        if name == 'EPoll' and not hasattr(__import__('select'), 'epoll'):
+            continue
+        if not scenario(getattr(pollers, name)):
+            bad = True
+        if CERT and not scenario(getattr(pollers, name), good=True):
+            bad = True  # (side finding: the plain socket stays in __starttls after the disconnect)
+    if bad:
+        print('VIOLATION: after a failed starttls handshake the connection that was reported with connect never gets a disconnect; '
+              'and the server keeps the upgraded socket in __starttls after the connection has ended')
         return 1
-    print('OK: all received bytes were reported before the single disconnect')
+    print('ok: one connect, one disconnect, nothing retained')
     return 0
 
 
